@@ -517,7 +517,9 @@ func (ex *Exec) posOf(p token.Pos) string {
 	}
 	pos := ex.P.Fset.Position(p)
 	f := pos.Filename
-	if i := strings.Index(f, "/repo/"); i >= 0 {
+	if rd := ex.P.RepoDir; rd != "" && strings.HasPrefix(f, rd+"/") {
+		f = f[len(rd)+1:]
+	} else if i := strings.Index(f, "/repo/"); i >= 0 {
 		f = f[i+6:]
 	}
 	return fmt.Sprintf("%s:%d", f, pos.Line)
